@@ -7,7 +7,8 @@
                        are within the range of the DSDL element type.
    db_wok db : what pydsdl guarantees of every type database (a union has options, signed widths <= 64). *)
 From Coq Require Import List NArith ZArith Bool.
-From Verif Require Import PyObj Gen_PyObj Gen_Pin_c18support PyObjThm PyObjThmRt PyObjThmRt2 PyObjThmWrap.
+From Verif Require Import PyObj Gen_PyObj Gen_Pin_c18support PyObjThm PyObjThmRt PyObjThmRt2 PyObjThmWrap PyObjThmStart PyObjThmMut PyObjThmRound PyObjThmRepr PyObjThmRun PyObjLaws PyModelAttr
+  Gen_Pin_c18model.
 Import ListNotations.
 Open Scope Z_scope.
 
@@ -18,51 +19,80 @@ Theorem C18_pick_width_spec : forall w, 1 <= w <= 64 ->
 Proof. exact pick_width_spec. Qed.
 Print Assumptions C18_pick_width_spec.
 
-(* after ANY sequence of constructor / setter / update_from_builtin operations, for every type database, type and quirk
-   setting: scalars in range, array dtype/length legal, exactly one union option -- recursively *)
-Theorem C18_obj_invariant : forall q db tid ops, db_wok db = true ->
-  wfv pick_width_gen db false (run tmpl_gen pick_width_gen q db tid ops) = true.
-Proof. exact obj_invariant. Qed.
+(* START STATE.  Histories start from `Class()`; the default constructor SUCCEEDS for every type of every database in which a type
+   only refers to smaller ids (db_ok_aux) and every integer width admits 0 (db_types_ok) -- structs, unions (first option
+   default-initialised), fixed arrays (np.zeros through the same-dtype fast path), fixed arrays of composites.  Both premises are
+   necessary (PyObjThmStart.default_needs_order / default_needs_types: the model's start state would be None). *)
+Theorem C18_default_obj_exists : forall q db, db_ok_aux 0 db = true -> db_types_ok db = true ->
+  forall tid c, nth_error db tid = Some c ->
+  exists sl, default_obj tmpl_gen pick_width_gen q db tid = PObj tid sl /\ length sl = length (c_fields c).
+Proof. exact default_obj_exists. Qed.
+Print Assumptions C18_default_obj_exists.
+
+(* INVARIANT, for objects reachable through constructors, the documented property setters and update_from_builtin only:
+   after ANY such sequence the object IS an instance of its class and honours the contract -- scalars in range, array dtype and
+   length legal, integer array elements within the DSDL range, exactly one union option, recursively.
+   (q = false: the code in /repo since the F-PY-ARRELEM fix; C18_obj_invariant_live below ties that to the scanned template.) *)
+Theorem C18_obj_invariant : forall db tid c ops,
+  db_wok db = true -> db_ok_aux 0 db = true -> db_types_ok db = true -> nth_error db tid = Some c ->
+  exists sl, run tmpl_gen pick_width_gen false db tid ops = PObj tid sl /\ obj_ok pick_width_gen true c sl = true /\
+             forallb (wfv pick_width_gen db true) sl = true.
+Proof. exact obj_invariant_strict_noquirk_total. Qed.
 Print Assumptions C18_obj_invariant.
 
-(* the full contract (array elements within the DSDL range too) holds for the conformant variant ... *)
-Theorem C18_obj_invariant_strict_noquirk : forall db tid ops, db_wok db = true ->
-  wfv pick_width_gen db true (run tmpl_gen pick_width_gen false db tid ops) = true.
-Proof. exact obj_invariant_strict_noquirk. Qed.
-Print Assumptions C18_obj_invariant_strict_noquirk.
-
-(* ... is refuted for the shipped code: uint4[<=3] = [200, 3], the bytes fast path, float16[<=2] = [1e6] ... *)
-Theorem C18_array_elem_range_refuted : exists db tid ops,
-  wfv pick_width_gen db true (run tmpl_gen pick_width_gen true db tid ops) = false.
-Proof. exact array_elem_range_refuted. Qed.
-Print Assumptions C18_array_elem_range_refuted.
-
-Theorem C18_array_elem_bytes_refuted : exists db tid ops,
-  wfv pick_width_gen db true (run tmpl_gen pick_width_gen true db tid ops) = false.
-Proof. exact array_elem_bytes_refuted. Qed.
-Print Assumptions C18_array_elem_bytes_refuted.
-
-Theorem C18_float_array_elem_unchecked :
-  assign_array tmpl_gen pick_width_gen true false 2 false (EPrim (KF 16)) (PList [PFloat 4696837146684686336])
-  = Ok (PArr (DF 16) [PFloat 9218868437227405312])                                (* [1e6] is stored as [+inf] *)
-  /\ set_prim tmpl_gen (KF 16) (PFloat 4696837146684686336) = Raise ValueError.    (* the scalar setter rejects 1e6 *)
-Proof. exact (conj float_array_elem_unchecked float_scalar_checked). Qed.
-Print Assumptions C18_float_array_elem_unchecked.
-
-(* ... and holds for the shipped code on every type database without arrays of non-standard-width integers *)
-Theorem C18_obj_invariant_partial : forall db tid ops, db_wok db = true -> db_std_elems pick_width_gen db = true ->
-  wfv pick_width_gen db true (run tmpl_gen pick_width_gen true db tid ops) = true.
-Proof. exact obj_invariant_partial. Qed.
-Print Assumptions C18_obj_invariant_partial.
-
-(* the theorem that is live for the tree in /repo: `arrelem_quirk_gen` (Generated/Gen_PyObj.v) says whether the scanned assign_array
-   macro still stores unchecked elements (true: the partial statement applies) or has the shape of the fix (false: full contract
-   for every type database) *)
-Theorem C18_obj_invariant_live : forall db tid ops, db_wok db = true ->
-  (arrelem_quirk_gen = false \/ db_std_elems pick_width_gen db = true) ->
-  wfv pick_width_gen db true (run tmpl_gen pick_width_gen arrelem_quirk_gen db tid ops) = true.
-Proof. exact obj_invariant_live. Qed.
+(* the same for whichever variant the scanner found in /repo (arrelem_quirk_gen is false on the current tree) *)
+Theorem C18_obj_invariant_live : forall db tid c ops,
+  db_wok db = true -> db_ok_aux 0 db = true -> db_types_ok db = true ->
+  (arrelem_quirk_gen = false \/ db_std_elems pick_width_gen db = true) -> nth_error db tid = Some c ->
+  exists sl, run tmpl_gen pick_width_gen arrelem_quirk_gen db tid ops = PObj tid sl /\ obj_ok pick_width_gen true c sl = true /\
+             forallb (wfv pick_width_gen db true) sl = true.
+Proof. exact obj_invariant_live_total. Qed.
 Print Assumptions C18_obj_invariant_live.
+
+(* WRITES THAT BYPASS THE SETTERS: element writes into an array obtained from a getter (`o.a[j] = v`, also through a slice view),
+   `o.a += z`, writes into an array the caller handed to a setter (the same-dtype fast path of assign_array binds the caller's
+   array: aliasing), and setters of nested instances (`o.inner.x = v`), at any depth.  What survives EVERY such history is the
+   storage-level contract (NumPy's dtype enforces it): dtype, lengths, storage range, union bookkeeping ... *)
+Theorem C18_xobj_invariant : forall q db tid c ops,
+  db_wok db = true -> db_ok_aux 0 db = true -> db_types_ok db = true -> nth_error db tid = Some c ->
+  exists sl, xrun tmpl_gen pick_width_gen q db tid ops = PObj tid sl /\ obj_ok pick_width_gen false c sl = true /\
+             forallb (wfv pick_width_gen db false) sl = true.
+Proof. exact xobj_invariant_total. Qed.
+Print Assumptions C18_xobj_invariant.
+
+(* ... and the full contract when no integer array has a non-standard element width (storage range = DSDL range) ... *)
+Theorem C18_xobj_invariant_strict_std : forall q db tid ops, db_wok db = true -> db_std_elems pick_width_gen db = true ->
+  wfv pick_width_gen db true (xrun tmpl_gen pick_width_gen q db tid ops) = true.
+Proof. exact xobj_invariant_strict_std. Qed.
+Print Assumptions C18_xobj_invariant_strict_std.
+
+(* ... but NOT the DSDL range of a uint4[<=3] element: an element write, `+=` and a write through the caller's alias each leave
+   200 / 101 / 200 in it without any exception (no generated code runs).  Hence C18_obj_invariant is, exactly, about objects
+   reachable through constructors / documented setters / update_from_builtin (C18_setters_only: such an xrun IS a run). *)
+Theorem C18_inplace_elem_range_refuted :
+  (exists db tid ops, db_wok db = true /\ wfv pick_width_gen db true (xrun tmpl_gen pick_width_gen false db tid ops) = false)
+  /\ xrun tmpl_gen pick_width_gen false db_u4 0 [XBase (OSet 0 (XVal (PList [PInt 1]))); XMutElem [] 0 0 (XVal (PInt 200))]
+     = PObj 0 [PArr (DU 8) [PInt 200]]
+  /\ xrun tmpl_gen pick_width_gen false db_u4 0 [XBase (OSet 0 (XVal (PList [PInt 1]))); XIAdd [] 0 100] = PObj 0 [PArr (DU 8) [PInt 101]]
+  /\ xrun tmpl_gen pick_width_gen false db_u4 0 [XAliasMut 0 (XNd (DU 8) [XVal (PInt 1)]) 0 (XVal (PInt 200))] = PObj 0 [PArr (DU 8) [PInt 200]].
+Proof.
+  destruct inplace_refuted_states as (A & B & C & _). exact (conj inplace_elem_range_refuted (conj A (conj B C))).
+Qed.
+Print Assumptions C18_inplace_elem_range_refuted.
+
+Theorem C18_setters_only : forall q db tid ops,
+  xrun tmpl_gen pick_width_gen q db tid (map XBase ops) = run tmpl_gen pick_width_gen q db tid ops.
+Proof. exact xobj_invariant_setters_only. Qed.
+
+(* does the setter copy or alias?  It aliases exactly when the argument is an ndarray of the field's storage dtype (fast binding);
+   otherwise the later write into the caller's array is invisible: the object equals the one after the plain setter call *)
+Theorem C18_alias_copy_decided : forall q db tid sl c i a j e xa x,
+  nth_error db tid = Some c -> eval tmpl_gen pick_width_gen q db a = Ok xa -> eval tmpl_gen pick_width_gen q db e = Ok x ->
+  is_fast_bind pick_width_gen c i xa = false ->
+  fst (xstep tmpl_gen pick_width_gen q db tid (PObj tid sl) (XAliasMut i a j e))
+  = fst (step tmpl_gen pick_width_gen q db tid (PObj tid sl) (OSet i a)).
+Proof. exact alias_copy_decided. Qed.
+Print Assumptions C18_alias_copy_decided.
 
 (* the conformant variant treats float16/32 array elements like the scalar setter: 1e6 raises, 65504.0 and +inf are stored *)
 Theorem C18_float_array_elem_noquirk :
@@ -72,26 +102,11 @@ Theorem C18_float_array_elem_noquirk :
 Proof. exact (conj float_array_elem_checked_noquirk float_array_elem_boundary_noquirk). Qed.
 Print Assumptions C18_float_array_elem_noquirk.
 
-(* F-PY-ARRWRAP.  `set_precheck b tmpl_gen` is the scanned template with the fact "the conversion path range-checks the source
-   before np.array(src, dtype) casts it" set to b; `tmpl_gen` itself is one of the two (C18_tmpl_live).
-   Without the pre-check an ndarray of another dtype wraps around silently ... *)
-Theorem C18_array_elem_wrap_refuted : forall q,
-  assign_array (set_precheck false tmpl_gen) pick_width_gen q false 4 false (EPrim (KU 8)) (PArr (DS 64) [PInt 256; PInt 1])
-  = Ok (PArr (DU 8) [PInt 0; PInt 1])
-  /\ assign_array (set_precheck false tmpl_gen) pick_width_gen q true 2 false (EPrim (KS 16)) (PArr (DS 64) [PInt 70000; PInt 1])
-     = Ok (PArr (DS 16) [PInt 4464; PInt 1]).
-Proof. intro q. exact (conj (array_elem_wrap_refuted q) (array_elem_wrap_signed_refuted q)). Qed.
-Print Assumptions C18_array_elem_wrap_refuted.
-
-(* ... while Python ints are never wrapped (the trigger is exactly "inside an ndarray of another dtype") ... *)
-Theorem C18_array_src_partial : forall q fixed cap sl k zs v, (exists w, k = KU w \/ k = KS w) ->
-  assign_array (set_precheck false tmpl_gen) pick_width_gen q fixed cap sl (EPrim k) (PList (map PInt zs)) = Ok v ->
-  v = PArr (dtype_of pick_width_gen (EPrim k)) (map PInt zs) /\
-  Forall (fun z => fits (dtype_of pick_width_gen (EPrim k)) (PInt z) = true) zs.
-Proof. exact array_src_partial. Qed.
-Print Assumptions C18_array_src_partial.
-
-(* ... and with the pre-check every accepted integer ndarray of another dtype is stored unchanged and lies within the FIELD's range *)
+(* F-PY-ARRWRAP (fixed in /repo).  `set_precheck true tmpl_gen` is the scanned template with the fact "the conversion path
+   range-checks the source before np.array(src, dtype) casts it"; C18_tmpl_live + the generated t_arr_precheck say that this IS
+   tmpl_gen on the current tree (the check verifies it against the behaviour of the generated classes at every run).
+   What the code did before is recorded in History/C18_history.v. *)
+(* every accepted integer ndarray of another dtype is stored unchanged and lies within the FIELD's range *)
 Theorem C18_array_src_checked : forall q fixed cap w dt' zs v, 1 <= w <= 64 -> dtype_eqb dt' (DU (pwd pick_width_gen w)) = false ->
   assign_array (set_precheck true tmpl_gen) pick_width_gen q fixed cap false (EPrim (KU w)) (PArr dt' (map PInt zs)) = Ok v ->
   v = PArr (DU (pwd pick_width_gen w)) (map PInt zs) /\ Forall (fun z => urange w z = true) zs.
@@ -128,7 +143,9 @@ Theorem C18_union_single_option : forall q c slots i x s',
 Proof. exact union_single_option. Qed.
 Print Assumptions C18_union_single_option.
 
-(* the checks are exact: every legal value is accepted unchanged, every illegal one raises ValueError *)
+(* FACT READ-BACK: the scalar and length checks are exact (every legal value accepted unchanged, every illegal one raises
+   ValueError).  In the model these reduce to the booleans/operators the scanner extracted from base.j2; what they certify is that
+   the scanned facts are the conformant ones -- the scanner itself is cross-checked by the correspondence run and the falsifier *)
 Theorem C18_int_setter_exact : forall k z, (exists w, k = KU w \/ k = KS w) ->
   set_prim tmpl_gen k (PInt z) = if int_in_range k z then Ok (PInt z) else Raise ValueError.
 Proof. exact int_setter_exact. Qed.
@@ -195,6 +212,56 @@ Theorem C18_builtin_roundtrip : forall q db fuel tid slots b,
 Proof. exact builtin_roundtrip. Qed.
 Print Assumptions C18_builtin_roundtrip.
 
+(* ROUNDING IS IDEMPOTENT: a value read back from a float16/float32 array equals the value stored after ONE rounding, so every float
+   array of every reachable object holds only fixed points of the rounding (no premise at all) ... *)
+Theorem C18_f_round_idem : forall w x, f_round w (f_round w x) = f_round w x.
+Proof. exact f_round_idem. Qed.
+Print Assumptions C18_f_round_idem.
+
+Theorem C18_float_repr_run : forall q db tid ops, float_repr_ok (run tmpl_gen pick_width_gen q db tid ops) = true.
+Proof. exact float_repr_run. Qed.
+Print Assumptions C18_float_repr_run.
+
+(* ... and the round trip COMPOSES WITH HISTORIES: for the object after any sequence of constructor / setter / update_from_builtin
+   operations (code in /repo: q = false), to_builtin then update_from_builtin on a fresh instance gives the object back.  The claim
+   is equality of the modelled STATE; that `serialize` is a function of that state is the codec properties' business (C01), and byte
+   equality is compared on the real classes at every run.  Remaining premise `rest_ok`: elements of composite arrays are instances of
+   the element class (the template does not check that, see below). *)
+Theorem C18_builtin_roundtrip_run : forall db tid c ops fuel b,
+  db_wok db = true -> db_ok_aux 0 db = true -> db_types_ok db = true -> db_strok db = true ->
+  nth_error db tid = Some c ->
+  let o := run tmpl_gen pick_width_gen false db tid ops in
+  rest_ok false db o = true -> tb db o = Some b -> (vdepth o <= fuel)%nat ->
+  ufb tmpl_gen pick_width_gen false db fuel (default_obj tmpl_gen pick_width_gen false db tid) b = (o, None).
+Proof. exact builtin_roundtrip_run_noquirk. Qed.
+Print Assumptions C18_builtin_roundtrip_run.
+
+(* NUMPY LAWS.  The array clause of setter soundness and the exactness of the length test depend on NumPy's np.array(x, dtype) only
+   through the named laws of `np_laws` (law_sound, law_pyint_id, law_pyint_overflow, law_foreign_wrap: the ASSUMED NumPy 2 behaviour,
+   swept at the dtype edges at every run); the model's conversion satisfies them *)
+Theorem C18_np_array_laws : np_laws np_array.
+Proof. exact np_array_laws. Qed.
+Print Assumptions C18_np_array_laws.
+
+Theorem C18_assign_array_from_laws : forall conv, np_laws conv ->
+  forall (strict q : bool) db fixed cap sl e x v,
+  sideF strict q (FArr fixed cap sl e) -> wfv pick_width_gen db strict x = true ->
+  assign_array_with tmpl_gen pick_width_gen q conv fixed cap sl e x = Ok v ->
+  field_ok pick_width_gen strict (FArr fixed cap sl e) v = true /\ wfv pick_width_gen db strict v = true /\ is_none v = false.
+Proof. exact assign_array_with_ok. Qed.
+Print Assumptions C18_assign_array_from_laws.
+
+(* `_MODEL_`: the class attribute is `_restore_constant_(<literals emitted by filter_pickle>)`; under the four library laws (explicit
+   premises) it is the pydsdl object the generator pickled.  The shapes of filter_pickle, _restore_constant_ and of the two `_MODEL_`
+   template lines are pinned (C18_model_shape_pinned); equality with the SOURCE model is compared on the real classes at every run. *)
+Theorem C18_model_attr_restored : forall (model bytes : Type) (pickle : model -> bytes) (unpickle : bytes -> model)
+    (gz gunz : bytes -> bytes) (b85enc : bytes -> list N) (b85dec : list N -> bytes) (strip : list N -> list N),
+  (forall m, unpickle (pickle m) = m) -> (forall b, gunz (gz b) = b) -> (forall b, b85dec (b85enc b) = b) ->
+  (forall b, strip (b85enc b) = b85enc b) ->
+  forall m, restore model bytes unpickle gunz b85dec (filter_pickle model bytes pickle gz b85enc strip m) = m.
+Proof. exact restore_filter_pickle. Qed.
+Print Assumptions C18_model_attr_restored.
+
 (* the gap, stated precisely: elements of composite arrays are not isinstance-checked by the template (both variants) *)
 Theorem C18_composite_array_elem_unchecked : forall q,
   field_value tmpl_gen pick_width_gen q (FArr false 2 false (EComp 0)) (PList [PInt 1]) = Ok (PArr DObj [PInt 1]).
@@ -222,13 +289,21 @@ Proof. reflexivity. Qed.
 
 (* non-vacuity: the hypotheses are satisfiable by a database with a union, nested composites and arrays, and the
    refutation witness itself is a well-formed database on which only the element clause fails *)
+Example C18_model_shape_pinned : pin_c18model_ok = true.
+Proof. reflexivity. Qed.
+
+(* the premises of the total theorems are satisfiable by a database with a union, nested composites, arrays of composites *)
+Example C18_total_premises_satisfiable :
+  db_wok ex_db = true /\ db_ok_aux 0 ex_db = true /\ db_types_ok ex_db = true /\ db_strok ex_db = true.
+Proof. vm_compute. repeat split; reflexivity. Qed.
+
 Example C18_db_wok_satisfiable :
   db_wok [ {| c_union := false; c_fields := [FScalar (EPrim (KU 4)); FArr false 3 false (EPrim (KU 4))] |};
            {| c_union := true; c_fields := [FScalar (EPrim (KF 16)); FScalar (EComp 0); FArr true 2 false (EComp 0)] |} ] = true
   /\ db_std_elems pick_width_gen [ {| c_union := false; c_fields := [FArr false 3 false (EPrim (KU 8)); FScalar (EPrim (KU 4))] |} ] = true.
 Proof. vm_compute. split; reflexivity. Qed.
 
-Example C18_witness_is_wellformed :
+Example C18_model_sensitivity_arrelem :
   let db := [ {| c_union := false; c_fields := [FArr false 3 false (EPrim (KU 4))] |} ] in
   let op := OSet 0 (XNd (DU 8) [XVal (PInt 200); XVal (PInt 3)]) in                       (* numpy.array([200, 3], uint8) *)
   db_wok db = true
